@@ -36,6 +36,8 @@ pub fn extract_from_multiple_archives<P: AsRef<Path> + Sync>(
     archives
         .par_iter()
         .map(|path| {
+            #[cfg(wowrs_verif)]
+            crate::verif::verif_yield("extract_from_multiple_archives");
             let path_ref = path.as_ref();
             match Archive::open(path_ref) {
                 Ok(mut archive) => match archive.read_file(file_name) {
